@@ -702,6 +702,27 @@ FLEET['G26'] = dict(
     values=['node'],
 )
 
+# custom terms that carry PRECEDENCE and associativity (custom_term(name, ftor, prec, assoc)): the shift/reduce
+# conflicts of an operator grammar are decided by the custom terms' levels exactly as by built-in terms' levels (S104)
+FLEET['G27'] = dict(
+    custom_lexer=True,
+    terms=[
+        ('num', T('custom', '', 'operand', typed=True)),
+        ('plus', T('custom', '', 'op_additive', prec=1, assoc='ltor', typed=True)),
+        ('mul', T('custom', '', 'op_multiplicative', prec=2, assoc='ltor', typed=True)),
+        ('pow', T('custom', '', 'op_power', prec=3, assoc='rtol', typed='sv')),
+    ],
+    nterms=['expr'],
+    root='expr',
+    rules=[
+        ('expr', ['expr', 'plus', 'expr'], 'plain'),
+        ('expr', ['num'], 'plain'),
+        ('expr', ['expr', 'mul', 'expr'], 'ctx'),
+        ('expr', ['expr', 'pow', 'expr'], 'plain'),
+    ],
+    values=['node', 'mnode'],
+)
+
 # standalone regex matchers (regex::expr<P>)
 REGEXES = {
     'R1': 'ab*c',
